@@ -3,6 +3,7 @@ package transaction
 
 import (
 	"math/big"
+	"unicode/utf8"
 
 	"github.com/ElrondNetwork/elrond-go/core"
 	"github.com/ElrondNetwork/elrond-go/core/check"
@@ -63,6 +64,11 @@ func (tx *Transaction) GetDataForSigning(encoder Encoder, marshalizer Marshalize
 	}
 	if check.IfNil(marshalizer) {
 		return nil, ErrNilMarshalizer
+	}
+	if !utf8.Valid(tx.ChainID) {
+		// the JSON encoder would replace every offending byte with the same escape sequence,
+		// so different chain IDs would yield the same data for signing
+		return nil, ErrInvalidChainID
 	}
 
 	ftx := &FrontendTransaction{
